@@ -261,14 +261,16 @@ CLAIMED.update({
         "text": "Machine-checked proof on a heap model (bit containers, list containers and an object table, with which "
                 "statement copies, shares or mutates in place written out) that for EVERY history of API operations the "
                 "content of an existing cell (bits and, recursively, referenced cells) never changes, a cell stays a cell, "
-                "an operation touches only its own target object, and reads change nothing. The heap model is tied to the "
+                "an operation touches only its own target object, reads change nothing, and a builder store is all-or-nothing "
+                "(refused: the whole heap is unchanged; accepted: exactly the value's bits and references are appended, within "
+                "1023 bits / 4 references). The heap model is tied to the "
                 "code by running random histories on both and comparing every object; on the implementation every live "
                 "cell's hash/bits/refs/to_boc is re-checked after every operation, plus the plain-bitarray constructor and "
                 "statelessness of order().",
         "design_ref": "DESIGN.md 4.8",
         "technique": "Coq ownership-invariant proof by induction over operation lists (fold_left) on an explicit heap model; "
                      "history-based correspondence by extracted OCaml model",
-        "note": "4 theorems closed under the global context. Not expressible in the model: mutation through CPython "
+        "note": "5 theorems closed under the global context. Not expressible in the model: mutation through CPython "
                 "internals, and callers that keep and mutate a TvmBitarray/list passed to the raw Cell constructor.",
     },
 })
